@@ -8,7 +8,7 @@
    C15_sat_exact and therefore on the standard library's real-number axioms; the others are closed. *)
 From Coq Require Import List ZArith NArith Bool String Reals.
 Import ListNotations.
-From SygmaV Require Import Lib.Hex Model.C15 Proofs.C15 Proofs.C15_Payload Proofs.C15_Real.
+From SygmaV Require Import Lib.Hex Model.C15 Proofs.C15 Proofs.C15_Payload Proofs.C15_Real Proofs.C15_Seq.
 Local Open Scope Z_scope.
 
 (* ------------------------------------------------------------------------------------------ *)
@@ -149,6 +149,78 @@ Theorem C15_nonce_preimage_inj : forall h t h' t',
   nonce_preimage h t = nonce_preimage h' t' -> h = h' /\ t = t'.
 Proof. exact nonce_preimage_inj. Qed.
 Print Assumptions C15_nonce_preimage_inj.
+
+(* ------------------------------------------------------------------------------------------ *)
+(* Round 4 - histories on ONE long-lived handler (one resources map, one fee address, as app.go
+   builds them): blocks of transactions (ProcessDeposits) and single decodes (DecodeDepositEvent)
+   in any order *)
+
+(* decoding a transaction never changes the configuration it is decoded against ... *)
+Theorem C15_seq_config_unchanged : forall cv nf steps cfg,
+  Forall (fun x => fst x = cfg) (seq_run cv nf cfg steps).
+Proof. exact seq_run_config. Qed.
+Print Assumptions C15_seq_config_unchanged.
+
+(* ... and what a step returns does not depend on what was decoded before it *)
+Theorem C15_seq_history_independent : forall cv nf steps cfg,
+  map snd (seq_run cv nf cfg steps) = map (fun s => snd (seq_step cv nf cfg s)) steps.
+Proof. exact seq_run_independent. Qed.
+Print Assumptions C15_seq_history_independent.
+
+(* the per-transaction judge accepts the model for every set of configured resources *)
+Theorem C15_tx_ok_model : forall outs rs faddr h t,
+  tx_ok outs rs faddr (process credited nonce outs rs faddr h t) (nonce h t) = true.
+Proof. exact (tx_ok_model credited nonce sat_exact). Qed.
+Print Assumptions C15_tx_ok_model.
+
+(* the history judge accepts the model on every history and every configuration *)
+Theorem C15_seq_ok_model : forall steps cfg, seq_ok cfg (model_obs credited nonce cfg steps) = true.
+Proof. exact (seq_ok_model credited nonce sat_exact). Qed.
+Print Assumptions C15_seq_ok_model.
+
+(* what it accepts: after every step the handler still holds the ORIGINAL configuration, no message
+   without a transaction, and every transaction / decode satisfies the per-transaction specification
+   (C15_process_ok_sound, C15_decode_ok_sound) against the original configuration *)
+Theorem C15_seq_ok_sound : forall cfg obs, seq_ok cfg obs = true ->
+  forall o, In o obs ->
+  match o with
+  | OBlock h txs stray snap f' =>
+      stray = false /\ snap = snap_of (fst cfg) /\ f' = snd cfg /\
+      forall t, In t txs -> tx_ok (ot_outs t) (fst cfg) (snd cfg) (ot_impl t) (ot_nonce_seen t) = true
+  | ODec outs ri impl snap f' =>
+      snap = snap_of (fst cfg) /\ f' = snd cfg /\
+      forall r, nth_error (fst cfg) ri = Some r -> decode_ok outs r (snd cfg) impl = true
+  end.
+Proof. exact seq_ok_sound. Qed.
+Print Assumptions C15_seq_ok_sound.
+
+Theorem C15_tx_ok_one : forall outs rs r faddr obs n,
+  filter (pays_bridge outs) rs = [r] -> tx_ok outs rs faddr obs n = process_ok outs r faddr obs n.
+Proof. exact tx_ok_one. Qed.
+Print Assumptions C15_tx_ok_one.
+
+Theorem C15_tx_ok_none : forall outs rs faddr obs n,
+  oprets_wf outs = true -> sats_wf outs = true -> filter (pays_bridge outs) rs = [] ->
+  tx_ok outs rs faddr obs n = true -> obs = NoMsg.
+Proof. exact tx_ok_none. Qed.
+Print Assumptions C15_tx_ok_none.
+
+(* Non-vacuity of the history judge: it rejects a history in which an underpaying transaction
+   lowered the threshold (snapshot differs, then a 1-satoshi fee is accepted) and accepts the
+   model's history of the same transactions. *)
+Example C15_seq_nonvacuous :
+  let bridge := Build_vout "witness_v1_taproot" "" "bridge" 50000 in
+  let opr := Build_vout "nulldata" "6a0430785f37" "" 0 in
+  let under := [opr; bridge; Build_vout "witness_v1_taproot" "" "fee" 9999] in
+  let one := [opr; bridge; Build_vout "witness_v1_taproot" "" "fee" 1] in
+  let r := Build_resource "bridge" 10000 [1%N] in
+  let cfg : config := ([r], "fee"%string) in
+  let steps := [SBlock 100 [Build_stx "aa" under]; SBlock 101 [Build_stx "bb" one]] in
+  map snd (seq_run credited nonce cfg steps) = [RBlock [NoMsg]; RBlock [NoMsg]] /\
+  seq_ok cfg (model_obs credited nonce cfg steps) = true /\
+  seq_ok cfg [OBlock 100 [Build_otx "aa" under NoMsg 0] false [([1%N], Build_resource "bridge" 1 [1%N])] "fee"] = false /\
+  seq_ok cfg [OBlock 101 [Build_otx "bb" one (Msg 7 5 [1%N] 500000000000000 (repeat 0%N 20)) 5] false (snap_of [r]) "fee"] = false.
+Proof. vm_compute. repeat split. Qed.
 
 (* Non-vacuity: a recognised deposit, the boundary of the fee comparison, and the repaired
    conversion on the witness of the defect. *)
